@@ -44,7 +44,7 @@ RULES = [
     (r"rule_config::RuleConfig::<L>::get_message$", r"expect", r"with_transform", "SAFE", "Fixer::with_transform can only fail with TemplateFixError, an enum without variants"),
     (r"rule_config::RuleConfig::<L>::get_message$|print::Diff::<'n>::generate$", r"(expect|unwrap)", r"from_utf8", "ASSUMED", "replacement bytes are template text + slices of the UTF-8 source at node boundaries + transformed strings (value level, C07)"),
     (r"transformation::resolve_char$", r"assert:overflow_Add", None, "SAFE", "c > len returns early, so len + c <= 2*len; for c < 0, len + c >= i32::MIN since len >= 0"),
-    (r"transformation::Substring::<.*>::compute$", r"index", None, "ASSUMED", "start/end clamped to [0, len] by resolve_char; start > end returns early (value level)"),
+    (r"transformation::Substring::<.*>::compute$", r"index", None, "SAFE", "resolve_char clamps start and end into 0..=len (value level) but does not order them: `start > end` returns early before the slice (comparison checked to dominate the slice)", {"guard": "substring_bounds"}),
     (r"string_case::", r".*", None, "ASSUMED", "offsets are sums of len_utf8() of chars of the same string produced by char iteration (value level)"),
     (r"source::Content>::(get_char_column|get_range)$", r"index", None, "SAFE", TS),
     (r"source::Content>::get_text$", r"expect", None, "SAFE", TS),
